@@ -74,6 +74,29 @@ func init() {
 				sp.Chunks = hexChunks(keys)
 				return Case{Specs: []Spec{sp}, Class: "acceptance/emacs", Meta: map[string]string{"part": "acceptance", "ends": strings.Join(ends, ",")}}
 			}
+			if r.Intn(6) == 0 {
+				// part D: Vi command mode, several yanks in a row into the unnamed and the lettered registers
+				// (a capital letter appends to the register): copies never change the buffer
+				yanks := []string{"Y", "yy", "yw", "yl", "y$", "yb", "ye", "yW", "y0"}
+				regs := []string{"", "", "\"a", "\"A", "\"A", "\"b", "\"B"}
+				buf := bufferPool[r.Intn(len(bufferPool))]
+				if r.Intn(2) == 0 {
+					buf = []string{"foo\nbar", "hello", "one two\nthree four\nfive", "héllo wörld\nété"}[r.Intn(4)]
+				}
+				pos := r.Intn(len([]rune(buf)) + 1)
+				sp := Spec{Prompt: "> ", Mode: "vi", Runs: 1, History: stdHistory,
+					Inject: []Inject{{Seq: `\C-x\C-y0`, Line: buf, Pos: pos}}}
+				keys := []string{"\x1b", "\x18\x190"}
+				if r.Intn(3) == 0 {
+					keys = append(keys, "A", "x", "y", "\x1b") // text appended first: the line has room to spare
+				}
+				pre := len(keys)
+				for k := 2 + r.Intn(4); k > 0; k-- {
+					keys = append(keys, regs[r.Intn(len(regs))]+yanks[r.Intn(len(yanks))])
+				}
+				sp.Chunks = hexChunks(keys)
+				return Case{Specs: []Spec{sp}, Class: "yanks/vi", Meta: map[string]string{"part": "yanks", "pre": fmt.Sprint(pre)}}
+			}
 			if r.Intn(2) == 0 {
 				// part A: state invariants at every wait of a random session; returned line = accepted buffer
 				sp := baseSpec(r)
@@ -152,6 +175,29 @@ func init() {
 					}
 					if w := tr.Waits[end-1]; res.Line != w.Line {
 						return []Finding{{"C06", "returned-differs-from-buffer", fmt.Sprintf("call %d of %d: buffer %q at the accepting key, returned %q", i+1, len(ends), w.Line, res.Line), c}}
+					}
+				}
+				return nil
+			}
+			if c.Meta["part"] == "yanks" {
+				if tr.Hang || len(tr.Waits) == 0 {
+					return nil
+				}
+				for _, res := range tr.Results {
+					if res.Panic != "" {
+						return nil
+					}
+				}
+				// the buffer when the first yank is about to be read, and after every yank
+				var pre int
+				fmt.Sscan(c.Meta["pre"], &pre)
+				if pre >= len(tr.Waits) {
+					return nil
+				}
+				stat("yanks: decided")
+				for i := pre + 1; i < len(tr.Waits); i++ {
+					if tr.Waits[i].Line != tr.Waits[pre].Line {
+						return []Finding{{"C06", "yank-edits", fmt.Sprintf("yank %d of the sequence %q changed %q into %q", i-pre, unhex(c.Specs[0].Chunks[pre:]), tr.Waits[pre].Line, tr.Waits[i].Line), c}}
 					}
 				}
 				return nil
